@@ -47,8 +47,9 @@ def run_property(pid, tier):
         # self-test corpus only (never the registered commands, which run on /repo): a stored refactoring / seed that
         # no longer applies to /repo's HEAD is replayed on the commit it was written against, which still contains a
         # defect that was repaired since; the rule that reports that defect is left out for that replay
-        skip = set(os.environ['VERIF_SELFTEST_SKIP_RULES'].split(','))
-        obs = [o for o in obs if o.rule not in skip]
+        # entries: RULE (the whole rule) or RULE:key-suffix (only obligations of that rule whose key ends like that)
+        skip = [x.split(':', 1) for x in os.environ['VERIF_SELFTEST_SKIP_RULES'].split(',') if x]
+        obs = [o for o in obs if not any(o.rule == r[0] and (len(r) == 1 or o.key.endswith(r[1])) for r in skip)]
     configs = ['base']
     # thorough: the verdict must be identical under the other build configurations
     cfg_diff = []
